@@ -240,6 +240,13 @@ def apply_step(stack, st, descs, nm=IDENT):
         new = top.drop_columns([nm.c(c) for c in st[1]])
     elif op == "rename":
         new = top.rename_columns({nm.c(p[0]): nm.c(p[1]) for p in st[1]})
+    elif op == "unpivot":
+        from data_algebra.cdata import RecordSpecification, RecordMap
+        vs = [nm.c(c) for c in st[1]]
+        keys = [c for c in top.column_names if c not in vs]
+        ct = pandas.DataFrame({nm.c("kk"): pandas.Series(["s%d" % (j + 1) for j in range(len(vs))], dtype="str"), nm.c("vv"): vs})
+        rs = RecordSpecification(ct, record_keys=keys, control_table_keys=[nm.c("kk")])
+        new = top.convert_records(RecordMap(blocks_out=rs))
     elif op == "map_columns":
         m = {nm.c(p[0]): nm.c(p[1]) for p in st[1]}
         m.update({nm.c(c): None for c in st[2]})
